@@ -24,7 +24,9 @@ def run(rep):
     rrow = [[1, 10], [2, 20], [3, 0], [2, 21]]
     for kw in ({}, {'storage': 'parquet', 'rg': 2}):
         db = {'tables': [table('p', [['k', 'int64'], ['d', 'int64'], ['v', 'float64'], ['s', 'utf8']], prow, **kw),
-                         table('q', [['k', 'int64'], ['w', 'int64'], ['d', 'int64']], qrow, **kw), table('r', [['w', 'int64'], ['z', 'int64']], rrow, **kw)]}
+                         table('q', [['k', 'int64'], ['w', 'int64'], ['d', 'int64']], qrow, **kw), table('r', [['w', 'int64'], ['z', 'int64']], rrow, **kw),
+                         table('cust', [['c_id', 'int64'], ['c_name', 'utf8'], ['c_seg', 'int64']], [[1, 'ann', 7], [2, 'bob', 7], [3, 'cy', 8]], **kw),
+                         table('ord', [['o_id', 'int64'], ['o_cust', 'int64'], ['o_amt', 'float64']], [[10, 1, F('1.0')], [11, 3, F('2.5')], [12, 3, F('2.5')], [13, 2, F('4.0')], [14, 1, F('0.5')]], **kw)]}
         sh = stats_shapes()
         for i in range(0, len(sh), 6):
             units.append({'db': db, 'stmts': sh[i:i + 6]})
